@@ -49,6 +49,11 @@ class Master:
             r = self.chip.inject(3, struct.pack("<HHHBB", 0o3, 0, self.fid, 0, noise) + b"zz")
             if r[1] != "new":
                 raise RuntimeError("injection failed %s" % (r,))
+            # ... and two more arrive later, while the master waits for the NETWORK_ACK of its RE-SENT answer
+            for k, dt in enumerate((2_600_000, 3_400_000, 4_200_000, 4_800_000, 5_400_000)):
+                self.fid = (self.fid + 1) & 0xFFFF
+                late = struct.pack("<HHHBB", 0o3, 0, self.fid, 0, (noise + 1 + k) & 0xFF) + b"yy"
+                self.s.at(self.s.now + dt, lambda t, late=late: self.chip.inject(3, late))
         self.air.log.clear()
         self.m.update()
         if noise is not None:
